@@ -26,7 +26,7 @@ MODS = ["amr_kitchen.mandoline.mandoline"]
 
 def bounds(tier):
     return {"levels": [1, 2, 3], "positions": "all lattice points (quarter of finest cell)", "normals": [0, 1, 2],
-            "field_lists": ["A", "A C G", "G grid_level", "all"], "limit": "None, 0..finest", "modes": ["serial", "parallel"]}
+            "field_lists": ["A", "A C G", "G grid_level", "all", "G A (not header order)", "C grid_level A"], "limit": "None, 0..finest", "modes": ["serial", "parallel"]}
 
 
 def rot(mesh, r):
@@ -74,7 +74,7 @@ def cases(tier, seed):
     return out
 
 
-FIELD_LISTS = [["A"], ["A", "C", "G"], ["G", "grid_level"], ["all"]]
+FIELD_LISTS = [["A"], ["A", "C", "G"], ["G", "grid_level"], ["all"], ["G", "A"], ["C", "grid_level", "A"]]
 
 
 def check_slice(rec, sub, sm, ref, m, L, fl, out):
